@@ -97,6 +97,87 @@ func e1Specs(prop, tier string) []engines.E1Spec {
 				HInit: "hello", HFlags: os.O_RDWR, Alphabet: engines.HandleAlphabet(5, false), Depth: 3, Oracles: or})
 		}
 		return out
+	case "C17":
+		out := []engines.E1Spec{}
+		shapes := engines.AllShapes()
+		follow := []ops.Op{{K: "put", P: "/new", C: "added"}, {K: "mkdir", P: "/newdir"}, {K: "put", P: "/d0/added", C: "T513:1"}, {K: "remove", P: "/f0"}, {K: "rename", P: "/f0", Q: "/renamed"},
+			{K: "removeall", P: "/d0"}, {K: "chmod", P: "/f0", N: 0o600}, {K: "put", P: "/f0", C: "overwritten"}, {K: "rename", P: "/d0", Q: "/dmoved"}}
+		for si, sh := range shapes {
+			for _, format := range []string{"ustar", "pax", "gnu"} {
+				for _, style := range []string{"./", "/", "top/"} {
+					for _, nc := range []string{"short", "c101", "p260"} {
+						for _, rs := range []int{20, 1} {
+							depth := 1
+							if tier == "quick" {
+								// quick: small shapes, short names everywhere, long names only for one shape, rs 20 only
+								if len(sh) > 6 || rs != 20 || (nc != "short" && sh != "((f)f)") {
+									continue
+								}
+							} else {
+								if nc != "short" && si%8 != 3 {
+									continue // long-name classes on every 8th shape
+								}
+								if rs == 1 && si%4 != 1 {
+									continue
+								}
+								if len(sh) <= 8 {
+									depth = 2
+								}
+							}
+							f := engines.ForeignSpec{Format: format, RootStyle: style, Shape: sh, NameClass: nc}
+							alpha := follow
+							if nc != "short" {
+								alpha = follow[:2]
+							}
+							out = append(out, engines.E1Spec{Name: fmt.Sprintf("T/%s/rs%d", f, rs), Cfg: rig.Config{RecordSize: rs}, Foreign: &f, Alphabet: alpha, Depth: depth, Oracles: []string{"C17", "C01x"}})
+						}
+					}
+				}
+			}
+		}
+		return out
+	case "C15":
+		out := []engines.E1Spec{}
+		depth := 2
+		if tier != "quick" {
+			depth = 3
+		}
+		for si, setup := range engines.ROSetups() {
+			for _, nowrite := range []bool{false, true} {
+				for _, absent := range []bool{false, true} {
+					if tier == "quick" && si > 0 && absent {
+						continue
+					}
+					out = append(out, engines.E1Spec{Name: fmt.Sprintf("RO/setup%d/nowrite=%v/absent-index=%v", si, nowrite, absent), Cfg: rig.Config{RecordSize: 20, ReadOnly: true, NoWriteOps: nowrite},
+						Setup: setup, Alphabet: engines.ROAlphabet(), Depth: depth, Oracles: or, Level: "ro", AbsentIndex: absent})
+				}
+			}
+		}
+		return out
+	case "C09":
+		out := []engines.E1Spec{}
+		type pl struct{ enc, sig, comp string }
+		pls := []pl{{"age", "", ""}, {"pgp", "minisign", "gzip"}}
+		depth := 2
+		if tier != "quick" {
+			pls = nil
+			for _, e := range []string{"age", "pgp"} {
+				for _, s := range []string{"", "minisign", "pgp"} {
+					for _, c := range []string{"", "gzip", "zstandard"} {
+						pls = append(pls, pl{e, s, c})
+					}
+				}
+			}
+			depth = 4
+		}
+		if tier == "quick" {
+			depth = 3
+		}
+		for _, x := range pls {
+			out = append(out, engines.E1Spec{Name: fmt.Sprintf("M/enc=%s,sig=%s,comp=%s", x.enc, x.sig, x.comp), Cfg: rig.Config{Encryption: x.enc, Signature: x.sig, Compression: x.comp, RecordSize: 20},
+				Alphabet: engines.MarkerAlphabet(), Depth: depth, Oracles: or, Level: "raw"})
+		}
+		return out
 	case "C12":
 		names := engines.WNames
 		out := []engines.E1Spec{}
